@@ -78,13 +78,20 @@ def _setup():
     shims.install_hash('S')
 
 
-def _empty_partition(pins):
-    """True if every text with this class prefix is unbalanced/adjacent."""
+def _empty_partition(pins, L=None):
+    """True if every text of length L with this class prefix is
+    unbalanced/adjacent (outside the quantifier)."""
     depth = 0
     prev = None
+    need = 0
     for c in pins:
         if c in ('"', '|', ';'):
-            return prev == 'o' and c != ';'
+            if prev == 'o' and c != ';':
+                return True
+            # an open literal needs its closing quote, a comment inside an
+            # expression its line end, before the parentheses can be closed
+            need = 1 if (c != ';' or depth > 0) else 0
+            break
         if c == '(':
             depth += 1
         elif c == ')':
@@ -92,6 +99,8 @@ def _empty_partition(pins):
             if depth < 0:
                 return True
         prev = c
+    if L is not None and len(pins) + need + depth > L:
+        return True
     return False
 
 
@@ -109,7 +118,7 @@ def partitions(tier):
             pinsets = [(a, b, c) for a in CLASSES for b in CLASSES
                        for c in CLASSES]
         for pins in pinsets:
-            if _empty_partition(pins):
+            if _empty_partition(pins, L):
                 continue  # every such text is outside the quantifier
             nm = f'len{L}' + ''.join('_' + {'(': 'lp', ')': 'rp', '"': 'dq',
                                             '|': 'bar', ';': 'sc', ' ': 'sp',
